@@ -1,8 +1,16 @@
 #!/bin/bash
-# ./mutate.sh <seed-dir-name> <check id> [tier]   : apply a seeded change to /repo, run a check, undo.
+# ./mutate.sh <seeded dir name> <check id> [tier]
+# Applies a seeded change to a scratch worktree of /repo (never to /repo itself), runs one
+# check against it (VF_REPO), writing evidence/replays to a scratch dir, then removes both.
 cd /verif
-p=seeded/$1/patch.diff
-git -C /repo apply $PWD/$p || exit 3
-./check $2 --tier ${3:-quick} > /tmp/mut_$1_$2.log 2>&1; rc=$?
-git -C /repo checkout -- . ; git -C /repo clean -fdq matchingproblems
-echo "$1 on $2: exit=$rc $(grep -c '^VIOLATION' /tmp/mut_$1_$2.log) violations; $(grep -c 'HARNESS-ERROR' /tmp/mut_$1_$2.log) harness errors"
+name=$1; id=$2; tier=${3:-quick}
+wt=/tmp/vfmut/$name.$id.$$
+mkdir -p /tmp/vfmut
+git -C /repo worktree add --detach $wt HEAD >/dev/null 2>&1 || exit 3
+if ! git -C $wt apply $PWD/seeded/$name/patch.diff 2>/dev/null; then echo "$name: patch does not apply"; git -C /repo worktree remove --force $wt; exit 3; fi
+out=$wt.out; mkdir -p $out
+VF_REPO=$wt VF_OUT=$out ./check $id --tier $tier > $out/log 2>&1; rc=$?
+cp $out/log /tmp/mut_${name}_$id.log
+echo "$name on $id: exit=$rc violations=$(grep -c '^VIOLATION' $out/log) harness_errors=$(grep -c 'HARNESS-ERROR' $out/log) $(tail -1 $out/log | grep -o 'wall=.*')"
+git -C /repo worktree remove --force $wt; rm -rf $out
+exit $rc
